@@ -513,10 +513,31 @@ fn lattice(tier: Tier) -> (u64, u64, Vec<Violation>) {
             o
         })
         .collect();
-    let n = res.len() as u64;
+    let mut n = res.len() as u64;
     let mut v = vec![];
     for r in res {
         v.extend(r);
+    }
+    // a parent that announces much faster than the port's own interval (G.8275.1 masters do):
+    // 9..12 Announces between two BMCA runs fill the foreign master record; the parent then changes
+    // its content, the BMCA runs, and the master port announces
+    for burst in [7usize, 8, 9, 10, 12, 17] {
+        n += 1;
+        let mut node = NodeSpec::default();
+        node.ports = vec![PortSpec::default(), PortSpec::default()];
+        let mut cfg = WorldCfg { node, share_seq_by_identity: true, ..Default::default() };
+        cfg.peers = vec![base.clone(), changed.clone()];
+        let sys = WorldSys { property: "C11", name: "lattice".into(), cfg, seed: vec![], alphabet: vec![], obedient: false, monitor: &MON, macros: vec![] };
+        let mut hist = vec![Ev::Ann(0, 0), Ev::Ann(0, 0), Ev::T(1, Timer::Receipt), Ev::Bmca];
+        for _ in 0..burst {
+            hist.push(Ev::Ann(0, 0));
+        }
+        hist.extend([Ev::Ann(0, 1), Ev::Bmca, Ev::T(1, Timer::Announce), Ev::Ann(0, 1), Ev::Ann(0, 0), Ev::Bmca, Ev::T(1, Timer::Announce)]);
+        let mut o = sys.run_all_judged(&hist).violations;
+        for x in &mut o {
+            x.replay = json!({"kind": "lattice-burst", "burst": burst});
+        }
+        v.extend(o);
     }
     (n, n, v)
 }
